@@ -218,9 +218,20 @@ func minimize(prob *Problem, method Method, settings *Settings, converger Conver
 		nTasks = 1
 	}
 	has := availFromProblem(*prob)
-	_, initErr := method.Uses(has)
+	uses, initErr := method.Uses(has)
 	if initErr != nil {
 		panic(fmt.Sprintf("optimize: specified method inconsistent with Problem: %v", initErr))
+	}
+	// Initial values that the method does not use must not travel with
+	// the location: nothing updates them, and they would be taken for
+	// the gradient and Hessian at the points evaluated later.
+	if !uses.Grad && initLoc.Gradient != nil {
+		initLoc.Gradient = nil
+		initOp &^= GradEvaluation
+	}
+	if !uses.Hess && initLoc.Hessian != nil {
+		initLoc.Hessian = nil
+		initOp &^= HessEvaluation
 	}
 	newNTasks := method.Init(dim, nTasks)
 	if newNTasks > nTasks {
